@@ -499,10 +499,20 @@ impl Monitor for C02 {
         let mut w = rng.range(0, 6);
         let calls = rng.range(1, 5);
         let maxlen = ctx.by_tier(40, 200, 400);
-        let mut al = if rng.chance(1, 2) {
-            Aligner::with_scoring(spec.scoring(), k, w)
-        } else {
-            Aligner::with_capacity_and_scoring(rng.usize(50), rng.usize(50), spec.scoring(), k, w)
+        // every public constructor (new / with_capacity use the default clip penalties)
+        let mut al = match rng.below(6) {
+            0 | 1 => Aligner::with_scoring(spec.scoring(), k, w),
+            2 | 3 => Aligner::with_capacity_and_scoring(rng.usize(50), rng.usize(50), spec.scoring(), k, w),
+            4 => {
+                spec.clips = [MIN_SCORE; 4];
+                spec.ms_hint = false;
+                Aligner::new(spec.open, spec.ext, spec.scoring().match_fn, k, w)
+            }
+            _ => {
+                spec.clips = [MIN_SCORE; 4];
+                spec.ms_hint = false;
+                Aligner::with_capacity(rng.usize(50), rng.usize(50), spec.open, spec.ext, spec.scoring().match_fn, k, w)
+            }
         };
         for h in 0..calls {
             let (x, y) = match rng.below(10) {
@@ -596,18 +606,18 @@ impl C02 {
                     1 => (b"A", b""),
                     _ => (b"", b"A"),
                 };
-                let spec = Spec { mf: cm(1, -1), open: -5, ext: -1, clips: cl, sigma: 2 };
+                let spec = Spec { mf: cm(1, -1), open: -5, ext: -1, clips: cl, sigma: 2, ms_hint: true };
                 let mut al = Aligner::with_scoring(spec.scoring(), 2, 1);
                 let c = self.make_call(rng, &spec, x.to_vec(), y.to_vec(), 2, 1, entry);
                 self.check_call(ctx, &mut al, &spec, &c, 0, true);
                 // zero gap costs: full band below optimum for empty x
-                let spec2 = Spec { mf: cm(1, -1), open: 0, ext: 0, clips: cl, sigma: 2 };
+                let spec2 = Spec { mf: cm(1, -1), open: 0, ext: 0, clips: cl, sigma: 2, ms_hint: true };
                 let mut al2 = Aligner::with_scoring(spec2.scoring(), 2, 1);
                 self.check_call(ctx, &mut al2, &spec2, &c, 0, true);
             }
             36 => {
                 // F13 witness
-                let spec = Spec { mf: cm(2, -1), open: -4, ext: 0, clips: [MIN_SCORE; 4], sigma: 3 };
+                let spec = Spec { mf: cm(2, -1), open: -4, ext: 0, clips: [MIN_SCORE; 4], sigma: 3, ms_hint: true };
                 let mut al = Aligner::with_scoring(spec.scoring(), 4, 0);
                 for entry in [8usize, 10, 9] {
                     let c = self.make_call(rng, &spec, b"BBCBCABACACAAAACAB".to_vec(), b"BBCCBCABACAAAAAAB".to_vec(), 4, 0, entry);
@@ -616,7 +626,7 @@ impl C02 {
             }
             37 => {
                 // just above the documented budget: 3301^2 = 10.9M cells, no shared k-mer => must be the sentinel
-                let spec = Spec { mf: cm(1, -1), open: -5, ext: -1, clips: [MIN_SCORE; 4], sigma: 2 };
+                let spec = Spec { mf: cm(1, -1), open: -5, ext: -1, clips: [MIN_SCORE; 4], sigma: 2, ms_hint: true };
                 let mut al = Aligner::with_scoring(spec.scoring(), 8, 3);
                 let c = self.make_call(rng, &spec, vec![b'A'; 3300], vec![b'C'; 3300], 8, 3, 0);
                 self.check_call(ctx, &mut al, &spec, &c, 0, false);
@@ -626,7 +636,7 @@ impl C02 {
             }
             38 => {
                 // 2301^2 = 5.29M cells (above the implemented, below the documented budget): either outcome allowed
-                let spec = Spec { mf: cm(1, -1), open: -5, ext: -1, clips: [0; 4], sigma: 2 };
+                let spec = Spec { mf: cm(1, -1), open: -5, ext: -1, clips: [0; 4], sigma: 2, ms_hint: true };
                 let mut al = Aligner::with_scoring(spec.scoring(), 8, 3);
                 let c = self.make_call(rng, &spec, vec![b'A'; 2300], vec![b'C'; 2300], 8, 3, 10);
                 self.check_call(ctx, &mut al, &spec, &c, 0, false);
@@ -636,7 +646,7 @@ impl C02 {
                 if ctx.tiny() {
                     return;
                 }
-                let spec = Spec { mf: cm(1, -1), open: -2, ext: -1, clips: [MIN_SCORE, MIN_SCORE, 0, 0], sigma: 2 };
+                let spec = Spec { mf: cm(1, -1), open: -2, ext: -1, clips: [MIN_SCORE, MIN_SCORE, 0, 0], sigma: 2, ms_hint: true };
                 let mut al = Aligner::with_scoring(spec.scoring(), 8, 3);
                 let mut x = vec![b'A'; 2180];
                 let y = vec![b'C'; 2180];
@@ -655,6 +665,7 @@ impl C02 {
                     ext: 0,
                     clips: [-3, MIN_SCORE, -3, MIN_SCORE],
                     sigma: 2,
+                    ms_hint: true,
                 };
                 let mut al = Aligner::with_scoring(spec.scoring(), 4, 4);
                 for entry in [2usize, 0, 1] {
@@ -670,6 +681,7 @@ impl C02 {
                     ext: -1,
                     clips: [[0, 0, 0, 0], [MIN_SCORE; 4], [MIN_SCORE, MIN_SCORE, 0, 0], [0, MIN_SCORE, MIN_SCORE, 0], [-3, -3, -3, -3]][(g % 5) as usize],
                     sigma: 4,
+                    ms_hint: true,
                 };
                 let core = b"ACGTTGCAAGCTTGGATCCAGT".to_vec();
                 let alpha = spec.alphabet();
